@@ -1,5 +1,5 @@
 (* C18 - a device failure or interrupt stops the run at a consistent point.  Statements only. *)
-From FJ Require Import Lib.Base Spec.MachineSpec Model.Faults Model.RunCase Model.FaultCase Proofs.FaultsProps.
+From FJ Require Import Lib.Base Spec.MachineSpec Model.Faults Model.RunCase Model.FaultCase Model.SignalCase Proofs.FaultsProps.
 Local Open Scope N_scope.
 
 (* If the device raises at its k-th call, the run stops in exactly the state the failure-free machine reaches
@@ -32,3 +32,13 @@ Print Assumptions C18_ladder.
 Example C18_failure_reachable :
   exists s', frun 4 [(0, 6)] (Some 0) 5 (init (mem_of_list [(0, 33); (1, 64)]) []) 0 = (DevFail false, s', 0).
 Proof. eexists. vm_compute. reflexivity. Qed.
+
+(* asynchronous interrupt: the campaign's verdict "consistent" (Model/SignalCase.v, evaluated on every signal case) means
+   that everything observed is the machine's state after exactly the reported number of ops *)
+Theorem C18_signal_verdict_sound : forall c,
+  check_signal_case c = 0 ->
+  exists s, run c.(c_ww) c.(c_segs) (N.to_nat c.(e_ops)) (init (mem_of_list c.(c_words)) (bytes_bits c.(c_input))) = (OutOfFuel, s)
+            /\ s.(ops) = c.(e_ops) /\ out_is c s.(outp) = true /\ mem_is c s.(m) = true
+            /\ (last_is c s.(hist) = true \/ last_is c (s.(ip) :: s.(hist)) = true).
+Proof. exact check_signal_case_sound. Qed.
+Print Assumptions C18_signal_verdict_sound.
